@@ -382,3 +382,25 @@ def rule_bound_again_truth(db: ProgramDB) -> List[Instance]:
     if n == 0:
         raise AnalysisError("no evaluation generator with a 'bound already' shortcut that decides its own truth found")
     return out
+
+
+# ---------------------------------------------------------------------------------- VALUE-FLAG-NOT-READ
+def rule_value_flag_not_read(db: ProgramDB) -> List[Instance]:
+    """An expression evaluated AS A VALUE (`_evaluate_as_value_`) still leaves the truthiness of what it produced in its own
+    truth flag - that is how the same expression works in condition position.  Whoever asked for the value must not read that
+    flag: it would treat a falsy value (0, '', None, an empty collection) as 'this row does not count'."""
+    out = []
+    n = 0
+    for fn in sorted(db.all_functions(), key=lambda f: f.qualname):
+        as_value = {unparse(c.func.value) for c in own_calls(fn) if call_attr(c) == "_evaluate_as_value_" and isinstance(c.func, ast.Attribute)}
+        as_cond = {unparse(c.func.value) for c in own_calls(fn) if call_attr(c) in ("_evaluate__", "_evaluate_") and isinstance(c.func, ast.Attribute)}
+        for r in sorted(as_value - as_cond - {"self"}):
+            n += 1
+            reads = [x for x in own_nodes(fn.node) if isinstance(x, ast.Attribute) and x.attr == "_is_false_" and isinstance(x.ctx, ast.Load) and unparse(x.value) == r]
+            out.append(inst("VALUE-FLAG-NOT-READ", VIOLATION if reads else HOLDS, fn, f"{fn.short}[{r} evaluated as a value]",
+                            f"`{unparse(reads[0])}` reads the truth flag of an operand that was evaluated as a value: its falsy values are skipped "
+                            f"(for_all over an attribute / index / flattened element with a falsy value becomes weaker, or yields nothing)" if reads else
+                            "the truth flag of the operand is not consulted", line=reads[0].lineno if reads else fn.lineno))
+    if n < 5:
+        raise AnalysisError(f"only {n} operand(s) evaluated as values found")
+    return out
